@@ -43,3 +43,27 @@ Print Assumptions C20_mem_string_bounded.
 Theorem C20_abi_decode_bounded : forall p i b, blen p < two63 -> load_param_bytes p i = Ok b -> blen b <= blen p.
 Proof. exact lpb_output_le_input. Qed.
 Print Assumptions C20_abi_decode_bounded.
+
+From Verif Require Import Model.ModExp Proofs.ModExp_proofs.
+(** MODEXP (0x05, from Berlin: EIP-2565): Run allocates buffers as long as the three length words of the input say. The fee
+    (vm/contracts.go bigModExp.RequiredGas, modelled with its 64-bit clamp) bounds them: unless it is the unpayable
+    2^64-1, the declared lengths together are at most 51 x fee + 66 — for every input, every exponent head (when base and
+    modulus length are both zero Run returns before allocating anything) ... *)
+Theorem C20_modexp_lengths_bounded_by_fee : forall base_len exp_len mod_len head,
+  (base_len <> 0 \/ mod_len <> 0) ->
+  modexp_gas_of true base_len exp_len mod_len head < two64 - 1 ->
+  base_len + exp_len + mod_len <= 51 * modexp_gas_of true base_len exp_len mod_len head + 66.
+Proof. exact modexp_lengths_bounded_by_gas. Qed.
+Print Assumptions C20_modexp_lengths_bounded_by_fee.
+
+(** ... and it is never below the 200 gas minimum *)
+Theorem C20_modexp_fee_at_least_200 : forall base_len exp_len mod_len head,
+  200 <= modexp_gas_of true base_len exp_len mod_len head.
+Proof. exact modexp_gas_2565_at_least_200. Qed.
+Print Assumptions C20_modexp_fee_at_least_200.
+
+Example C20_modexp_example :
+  modexp_gas_of true 32 32 32 (2^255) = 1360 /\ modexp_gas_of true 1 1 1 1 = 200 /\
+  modexp_gas_of true (2^40) 32 32 1 = two64 - 1 /\ modexp_gas_of true 64 (2^30) 1 0 = 183251932501 /\
+  modexp_gas_of false 64 32 64 (2^255) = 52224.
+Proof. exact ex_modexp. Qed.
